@@ -13,6 +13,7 @@ import (
 	_ "verif/checks/c05"
 	_ "verif/checks/c06"
 	_ "verif/checks/c07"
+	_ "verif/checks/c08"
 	_ "verif/checks/c09"
 	_ "verif/checks/c10"
 	_ "verif/checks/c11"
